@@ -28,7 +28,7 @@ type FieldOp struct {
 
 // Step is one abstract operation. Indices are taken modulo what exists.
 type Step struct {
-	Kind string    `json:"k"` // create update delete deliver
+	Kind string    `json:"k"` // create update delete deliver ttread
 	Node int       `json:"n"`
 	Tpl  int       `json:"tpl,omitempty"`
 	Doc  int       `json:"doc,omitempty"`
@@ -190,6 +190,11 @@ func drawCase(t *rapid.T, bias string) Case {
 		case w < 56:
 			s.Kind = "delete"
 			s.Doc = rapid.IntRange(0, 3).Draw(t, "doc")
+		case w < 62:
+			// a time-travel read of an arbitrary merged commit: reads must not change any state
+			s.Kind = "ttread"
+			s.Doc = rapid.IntRange(0, 3).Draw(t, "doc")
+			s.Msg = rapid.IntRange(0, 1<<10).Draw(t, "commit")
 		default:
 			s.Kind = "deliver"
 			s.Msg = rapid.IntRange(0, 1<<16).Draw(t, "msg")
